@@ -462,6 +462,26 @@ func judgeC05(c Case) *h.Verdict {
 		v.Label("marshal-error(reported under C04)")
 		return v
 	}
+	// the process has decoded damaged input of this type just before (a length octet inside pushed beyond its
+	// container, the input cut short): whatever those decodes did (C16 judges them), they are over, and the round
+	// trip that follows must not be affected
+	var pos []elemPos
+	tlvPositions(enc, 0, &pos)
+	damaged := 0
+	for k := len(pos) - 1; k >= 1 && damaged < 3; k-- {
+		if pos[k].lenOcts == 1 && enc[pos[k].lenOff] != 0x7f {
+			in := append([]byte{}, enc...)
+			in[pos[k].lenOff] = 0x7f
+			decodeOne(pv.Type().Elem(), c.Params, in)
+			damaged++
+		}
+	}
+	if len(enc) > 2 {
+		decodeOne(pv.Type().Elem(), c.Params, enc[:len(enc)-1])
+	}
+	if damaged > 0 {
+		v.Label("damaged-input-decoded-just-before")
+	}
 	out := reflect.New(pv.Type().Elem())
 	var uerr error
 	if p, val, st := h.Safely(func() { uerr = asn.UnmarshalWithParams(enc, out.Interface(), c.Params) }); p {
